@@ -7,8 +7,7 @@ import (
 )
 
 var (
-	factor1   = MakeAmount(1, 0)
-	factor100 = MakeAmount(100, 0)
+	factor1 = MakeAmount(1, 0)
 )
 
 // Percentage wraps around the regular Amount handler to provide support
@@ -104,11 +103,10 @@ func (p Percentage) Base() Amount {
 // Amount provides an amount for the percentage that has been rescaled
 // from the underlying value mainly to be used for formatting.
 func (p Percentage) Amount() Amount {
-	e := int64(p.amount.exp) - 2
-	if e < 0 {
-		e = 0
-	}
-	return p.amount.Multiply(factor100).Rescale(uint32(e))
+	// a hundred times the value has the same digits and two decimals less,
+	// so provide at least two to take away
+	a := p.amount.RescaleUp(2)
+	return Amount{value: a.value, exp: a.exp - 2}
 }
 
 // Rescale will rescale the percentage value to the provided exponent.
